@@ -255,6 +255,7 @@ func c15Run(cs *c15Case) c15Res {
 	}
 	src := newC15Src(cs.segs, cs.term, cs.lwt)
 	var body io.ReadCloser
+	setupPanic := ""
 	if cs.st.kind == "direct" {
 		body = newAutoDecodeReadCloser(src, tr)
 	} else {
@@ -266,10 +267,18 @@ func c15Run(cs *c15Case) c15Res {
 			h.Set("Accept-Encoding", cs.ae)
 		}
 		r := &http.Response{Header: h, Body: src}
-		tr.autoDecodeResponseBody(r)
+		if ptxt, panicked := verifh.Safely(func() { tr.autoDecodeResponseBody(r) }); panicked {
+			setupPanic = "panic in autoDecodeResponseBody: " + ptxt
+		}
 		body = r.Body
 	}
-	out, term, anomaly := c15Drain(body, cs.bufs, cs.tail, cs.dirty)
+	var out []byte
+	var term, anomaly string
+	if setupPanic != "" {
+		term = "panic"
+	} else {
+		out, term, anomaly = c15Drain(body, cs.bufs, cs.tail, cs.dirty)
+	}
 	kind := "?"
 	switch b := body.(type) {
 	case *c15Src:
@@ -390,6 +399,9 @@ func c15Run(cs *c15Case) c15Res {
 		res.ok, res.detail = false, anomaly
 	case term == "panic":
 		res.ok, res.detail = false, "panic while reading the body"
+		if setupPanic != "" {
+			res.detail = setupPanic
+		}
 	case term == "eof":
 		if cs.term != io.EOF {
 			res.ok, res.detail = false, "source error turned into EOF"
